@@ -98,4 +98,41 @@ def handleJudge (args : List Sexp) : Sexp :=
      | _ => .list [.atom "bad-request", .atom "program"])
   | _ => .list [.atom "bad-request"]
 
+/-- `(c03-strlit "raw" (impl (strlit (segs …) <decoder> <outcome>)))` -/
+def handleStrLit (args : List Sexp) : Sexp :=
+  match args with
+  | [_raw, .list [.atom "impl", .list [.atom "strlit", .list (.atom "segs" :: segs), decoder, outcome]]] =>
+    let segs? : Option (List Literal.Segment) := Sexp.mapM? (fun s => match s with
+      | .list [.atom "frag", .str t] => some (Literal.Segment.fragment t)
+      | .list [.atom "esc", .str t] => some (Literal.Segment.escape t)
+      | _ => none) segs
+    (match segs? with
+     | none => .list [.atom "bad-request", .atom "segs"]
+     | some segs =>
+       let model := Literal.parseString segs
+       let spec := Spec.Ecma.stringValue (segs.map fun s => match s with
+         | .fragment t => Spec.Ecma.Seg.fragment t
+         | .escape t => Spec.Ecma.Seg.escape t)
+       -- (1) correspondence: the real decoder = the model
+       let decOk : Bool := match decoder, model with
+         | .list [.atom "value", .str v], some m => v == m
+         | .list [.atom "none"], none => true
+         | .list (.atom "unavailable" :: _), _ => true
+         | _, _ => false
+       if !decOk then
+         fail "the real literal decoder disagrees with Model.Literal.parseString"
+           [match model with | some m => .list [.atom "value", .str m] | none => .list [.atom "none"]]
+       else
+       -- (2) the embedded string against the ECMAScript string value
+       match outcome, spec with
+       | .list [.atom "const", .atom "string", .atom "notr", .str t], some units =>
+         if Spec.Ecma.units16 t == units then ok "exact"
+         else fail "embedded string differs from the ECMAScript value of the literal" [.list (units.map Sexp.ofNat)]
+       | .list (.atom "const" :: _), some _ => fail "unexpected value element for a string literal" []
+       | .list (.atom "const" :: _), none => fail "a literal without ECMAScript value was embedded" []
+       | .list (.atom "rejected" :: _), some _ => ok "over-rejected"
+       | .list (.atom "rejected" :: _), none => ok "rejected-invalid"
+       | _, _ => fail "unexpected outcome" [])
+  | _ => .list [.atom "bad-request"]
+
 end QV.Driver.C03
